@@ -135,6 +135,41 @@ func fieldIndex(t types.Type, name string) int {
 	return -1
 }
 
+// nestedFieldPath finds the unique field called name in the struct-typed fields of t (named struct types declared in
+// the same package as t, up to depth levels down), as a path from t.
+func nestedFieldPath(t types.Type, name string, depth int) sym.Path {
+	st, ok := t.Underlying().(*types.Struct)
+	if !ok || depth == 0 {
+		return nil
+	}
+	var home *types.Package
+	if n, ok := t.(*types.Named); ok {
+		home = n.Obj().Pkg()
+	}
+	var found sym.Path
+	n := 0
+	for i := 0; i < st.NumFields(); i++ {
+		ft, ok := st.Field(i).Type().(*types.Named)
+		if !ok || ft.Obj().Pkg() != home {
+			continue
+		}
+		if _, isStruct := ft.Underlying().(*types.Struct); !isStruct {
+			continue
+		}
+		if j := fieldIndex(ft, name); j >= 0 {
+			found = sym.Path{sym.F(i), sym.F(j)}
+			n++
+		} else if sub := nestedFieldPath(ft, name, depth-1); sub != nil {
+			found = append(sym.Path{sym.F(i)}, sub...)
+			n++
+		}
+	}
+	if n == 1 {
+		return found
+	}
+	return nil
+}
+
 // rend bundles what the renderer rules share.
 type rend struct {
 	c      *Ctx
@@ -210,6 +245,15 @@ func (r *rend) fieldPath(dotted string) sym.Path {
 	for _, part := range strings.Split(dotted, ".") {
 		i := fieldIndex(t, part)
 		if i < 0 {
+			// fields that travel together may have been grouped into a struct of their own: the one field of that name
+			// in a struct-typed field (of a type of the same package) is the same piece of state
+			if sub := nestedFieldPath(t, part, 2); sub != nil {
+				p = append(p, sub...)
+				for _, e := range sub {
+					t = t.Underlying().(*types.Struct).Field(e.Field).Type()
+				}
+				continue
+			}
 			r.c.R.Anchor("field render.Renderer." + dotted)
 			return nil
 		}
